@@ -287,6 +287,90 @@ def _constructor(op, tmp):
     raise MachineryError(f'unknown script operation {op}')
 
 
+def _ident_pool_job(job):
+    """StoreGuard.tla ThreadIdentities: a pool of parked live threads with large stacks - their identifiers (addresses on
+    Linux) are far apart, some of them by a multiple of 4 GiB.  The first one creates (and closes) two stores; after
+    that EVERY other live thread of the pool must be refused.  Runs in a fresh process."""
+    import queue
+    import threading
+
+    MiB = 1024 * 1024
+    try:
+        TS = _store_cls()
+        _reset_guard()
+        workers = []
+
+        class W:
+            def __init__(self):
+                self.ident = None
+                self.ready = threading.Event()
+                self.jobs, self.results = queue.Queue(), queue.Queue()
+                self.thread = threading.Thread(target=self._run, daemon=True, name='pool')
+                self.thread.start()
+                self.ready.wait(10)
+
+            def _run(self):
+                self.ident = threading.get_ident()
+                self.ready.set()
+                while True:
+                    j = self.jobs.get()
+                    if j is None:
+                        return
+                    try:
+                        j()
+                        self.results.put('created')
+                    except RuntimeError as e:
+                        self.results.put('refused' if 'thread' in str(e).lower() else f'RuntimeError: {e}')
+                    except Exception as e:
+                        self.results.put(f'{type(e).__name__}: {e}')
+
+            def call(self, j):
+                self.jobs.put(j)
+                return self.results.get(timeout=30)
+
+        pair = None
+        for stack, count in ((896 * MiB, 12), (256 * MiB, 24)):
+            try:
+                threading.stack_size(stack)
+            except ValueError:
+                continue
+            seen = {}
+            for _ in range(count):
+                try:
+                    w = W()
+                except RuntimeError:
+                    break
+                if w.ident is None:
+                    break
+                workers.append(w)
+                other = seen.setdefault(w.ident % 2**32, w)
+                if other is not w and pair is None:
+                    pair = (other, w)
+            if pair:
+                break
+        threading.stack_size(0)
+        if len(workers) < 2:
+            return {'skipped': 'could not start two pool threads'}
+
+        def make():
+            TS.create().close()
+
+        first = pair[0] if pair else workers[0]
+        out = {'pool': len(workers), 'pair_4GiB_apart': [hex(x.ident) for x in pair] if pair else None, 'first': hex(first.ident), 'results': []}
+        r1, r1b = first.call(make), first.call(make)
+        out['owner'] = [r1, r1b]
+        order = ([pair[1]] if pair else []) + [w for w in workers if w is not first and not (pair and w is pair[1])]
+        for w in order:
+            out['results'].append((hex(w.ident), w.call(make)))
+        for w in workers:
+            w.jobs.put(None)
+        return out
+    except Exception as e:
+        import traceback
+
+        return f'{type(e).__name__}: {e}\n{traceback.format_exc()}'
+
+
 def _script_job(job):
     script, tmp = job
     try:
@@ -417,6 +501,23 @@ def run(ctx: Ctx):
         ctx.case_done({'schedule': sch}, nontrivial=both_inside)
         ctx.sample({'schedule': sch, 'results': {str(k): v for k, v in results.items()}}, limit=3)
     _reset_guard()
+    # StoreGuard.tla ThreadIdentities: live threads whose identifiers are far apart (fresh process)
+    if not ctx.replay or 'ident_pool' in json.loads(Path(ctx.replay).read_text())['case']:
+        from .store_replay import fresh_map
+
+        res = fresh_map(_ident_pool_job, [0])[0]
+        if isinstance(res, str):
+            raise MachineryError('identity pool worker failed: ' + res)
+        ctx.extra['thread_identity_pool'] = {k: v for k, v in res.items() if k != 'results'}
+        if 'skipped' not in res:
+            ctx.case_done({'ident_pool': res['pool']}, nontrivial=bool(res['pair_4GiB_apart']))
+            if res['owner'] != ['created', 'created']:
+                ctx.violation('ident-pool:owner-refused', f'the first thread of the pool ({res["first"]}) creating two stores one after the other got {res["owner"]}', {'ident_pool': res})
+            bad = [(i, r) for i, r in res['results'] if r != 'refused']
+            if bad:
+                ctx.violation('ident-pool:second-thread-not-refused', f'after thread {res["first"]} had created its stores, other LIVE threads were answered {bad[:4]} (identifiers 4 GiB apart in the pool: {res["pair_4GiB_apart"]}); specification: refused', {'ident_pool': res})
+        if ctx.replay:
+            return
     # sequential scripts: the hand-written orders, every behaviour of
     # GuardGen.tla of length D, and random walks of greater length
     import shutil
